@@ -172,20 +172,22 @@ impl Iterator for StyledScanlines {
     fn next(&mut self) -> Option<Self::Item> {
         self.scanlines.next().map(|scanline| {
             if self.fill_area.rows.contains(&scanline.y) {
-                let fill_start = scanline
+                let fill_range = scanline
                     .x
                     .clone()
                     .find(|x| self.fill_area.contains(Point::new(*x, scanline.y)))
-                    .unwrap_or(scanline.x.start);
+                    .map(|fill_start| {
+                        let fill_end = scanline
+                            .x
+                            .clone()
+                            .rfind(|x| self.fill_area.contains(Point::new(*x, scanline.y)))
+                            .map(|x| x + 1)
+                            .unwrap_or(fill_start);
 
-                let fill_end = scanline
-                    .x
-                    .clone()
-                    .rfind(|x| self.fill_area.contains(Point::new(*x, scanline.y)))
-                    .map(|x| x + 1)
-                    .unwrap_or(scanline.x.end);
+                        fill_start..fill_end
+                    });
 
-                StyledScanline::new(scanline.y, scanline.x, Some(fill_start..fill_end))
+                StyledScanline::new(scanline.y, scanline.x, fill_range)
             } else {
                 StyledScanline::new(scanline.y, scanline.x, None)
             }
